@@ -309,7 +309,7 @@ func (sc *c10Scenario) Run(s *simrt.Sim) {
 	other := fpgo.PublisherNewGenerics[int]()
 	foreign := other.Subscribe(fpgo.Subscription[int]{OnNext: func(int) {}})
 	var ths []*simrt.Thread
-	val := 0
+	val := -1 // the first published value is 0: the zero value is a value like any other
 	for ti, ops := range sc.Threads {
 		ops := ops
 		name := fmt.Sprintf("t%d", ti)
